@@ -8,7 +8,7 @@ CHECKS = {
  "C01": (TV, "TLC refinement check: M6502 execution of emitted code vs CSem source semantics (SrcEval+Refine); FlagProv.tla validates the traces of hook H3 (the generator's belief about the flags wherever it relies on it), unjustified beliefs direct a second, denser execution", "6.C01",
          "Per generated program (GenProg.tla families, exhaustive in the thorough tier) TLC executes the code the real compiler emitted on the 6502 specification from boundary inputs x 2 ambient configurations and compares the halted state with the state the CSem specification prescribes; an alarm means no reading of the C dialect gives the observed result. Bounded to the generated vocabulary and inputs.",
          "Trusted: TLC, M6502/Enc6502/CSem (self-tested by ASSUMEs), harness renderer/linker/layout. Known defect classes are attributed by program shape (known_findings.json)."),
- "C02": (TV, "TLC sequential-product refinement: -O0 code vs -O1/-O2/-O3 code on M6502 (Refine pair mode); Peephole.tla (optimize() as coded) model-checked and replayed into the real optimize()", "6.C02",
+ "C02": (TV, "TLC sequential-product refinement: -O0 code vs -O1/-O2/-O3 code on M6502 (Refine pair mode; final state, io log and the accesses of protected instructions); Peephole.tla (optimize() as coded) model-checked and replayed into the real optimize()", "6.C02",
          "Each generated program is compiled at -O0..-O3; Refine.tla runs the -O0 code to completion, resets the machine with the optimised code on the same input and requires equal variables, X, Y, io log, faults and termination. Independent of the source semantics.",
          "Trusted: TLC, M6502/Enc6502, harness linker/layout."),
  "C03": (MC, "TLC: GenLayout enumeration -> check_branches via API -> Asm.tla ranges + Refine.tla path equality for all N/Z/C; BranchFix.tla (check_branches as coded) model-checked and replayed into the real check_branches()", "6.C03",
@@ -50,7 +50,7 @@ CHECKS = {
  "C17": (TV, "TLC refinement with split-port memory classes in M6502 (faults on wrong-port access / RMW) + CSem final state", "6.C17",
          "GenProg programs compiled with feature atari2600 and subsets of the variables declared superchip, or bank-resident RAM under 3E / 3E+; M6502's memory model raises a fault for a read through a write port, a write through a read port and any read-modify-write on either; the final state must equal what CSem prescribes; a control group of ordinary placements is included.",
          "Trusted: split-port address windows as laid out by the harness (superchip: write $1000, read +$80; 3E: read $1000, write +$400; 3E+: write +$200)."),
- "C18": (TV, "TLC refinement: io log of M6502 vs explicit accesses prescribed by CSem, all -O levels pairwise; csleep cycle difference by Enc6502 cycle table", "6.C18",
+ "C18": (TV, "TLC refinement: io log of M6502 vs explicit accesses prescribed by CSem, all -O levels pairwise (also the memory accesses of every instruction marked protected, whatever cell it touches); csleep cycle difference by Enc6502 cycle table", "6.C18",
          "FX: sequences of load/store/strobe/asm/csleep and ordinary statements (also inside if and for) at -O0/-O1/-O2: the sequence of accesses to the port cells (order, direction, value) executed by the 6502 model must equal what CSem prescribes, and the levels must agree. FS: csleep(n) for n = 0..12 in four contexts against the same program without it: exactly n cycles more, identical final state (A preserved between load and store).",
          "Trusted: Enc6502 cycle table (no page-cross penalty), asm menu meanings. Built with feature atari2600."),
  "C16": (EX, "systematic token-level mutation of the repository's own test inputs; every recorded outcome validated by TLC against Outcome.tla", "6.C16",
